@@ -2,6 +2,7 @@
 // a number of rounds with a seeded start order and yield pattern.  Built with -race; a race report goes to stderr
 // (GORACE=halt_on_error=0) and is counted by the caller.  Output: one line per disagreement
 //   DIFF <round> <task> <sha-seq> <sha-conc>
+//   MUTATED <when> <which module> <first differing fact of the deep fingerprint>
 // and a last line  DONE rounds=<n> tasks=<n> diffs=<n>
 package main
 
@@ -25,18 +26,81 @@ func main() {
 	seed := flag.Uint64("seed", 1, "start-order seed")
 	dump := flag.String("dump", "", "write the sequential and differing transcripts here")
 	flag.Parse()
+	// a cold start: the very first loads of the process run concurrently (lazily initialised process-wide state
+	// would be written here), and are compared with the sequential results below
+	coldTasks := scn.Tasks(nil, nil, *nLoad, 0)
+	cold := make([]string, len(coldTasks))
+	{
+		var wg sync.WaitGroup
+		for i := range coldTasks {
+			wg.Add(1)
+			go func(i int) { defer wg.Done(); cold[i] = coldTasks[i].Run() }(i)
+		}
+		wg.Wait()
+	}
 	shared, fcYang, err := scn.Shared("/repo/yang")
 	if err != nil {
 		fmt.Println("SETUP-ERR", err)
 		os.Exit(3)
 	}
 	tasks := scn.Tasks(shared, fcYang, *nLoad, *nUse)
+	diffs := 0
+	// "using a compiled module never mutates it": every field of everything reachable from the shared module
+	fpBefore := scn.Fingerprint(shared)
+	fpYangBefore := scn.Fingerprint(fcYang)
+	mutated := func(when string) {
+		if d := scn.FirstDiff(fpBefore, scn.Fingerprint(shared)); d != "" {
+			diffs++
+			fmt.Printf("MUTATED %s shared-module %s\n", when, d)
+		}
+		if d := scn.FirstDiff(fpYangBefore, scn.Fingerprint(fcYang)); d != "" {
+			diffs++
+			fmt.Printf("MUTATED %s fc-yang %s\n", when, d)
+		}
+	}
 	seq := make([]string, len(tasks))
 	for i, t := range tasks {
 		seq[i] = t.Run()
 	}
+	mutated("after-sequential-use")
+	// cold concurrent use: a second, untouched copy of the same module is used by all use tasks at once before
+	// anything else has touched it (lazily filled caches inside the schema would be written here)
+	if shared2, fcYang2, err := scn.Shared("/repo/yang"); err == nil {
+		fp2 := scn.Fingerprint(shared2)
+		t2 := scn.Tasks(shared2, fcYang2, 0, *nUse)
+		got := make([]string, len(t2))
+		var wg sync.WaitGroup
+		for i := range t2 {
+			wg.Add(1)
+			go func(i int) { defer wg.Done(); got[i] = t2[i].Run() }(i)
+		}
+		wg.Wait()
+		for i := range t2 {
+			if got[i] != seq[*nLoad+i] {
+				diffs++
+				fmt.Printf("DIFF colduse %s %s %s\n", t2[i].Name, sha(seq[*nLoad+i]), sha(got[i]))
+				if *dump != "" {
+					os.WriteFile(*dump+"."+t2[i].Name+".seq", []byte(seq[*nLoad+i]), 0644)
+					os.WriteFile(*dump+"."+t2[i].Name+".colduse", []byte(got[i]), 0644)
+				}
+			}
+		}
+		if d := scn.FirstDiff(fp2, scn.Fingerprint(shared2)); d != "" {
+			diffs++
+			fmt.Printf("MUTATED after-cold-concurrent-use shared-module-copy %s\n", d)
+		}
+	}
+	for i := range coldTasks {
+		if cold[i] != seq[i] {
+			diffs++
+			fmt.Printf("DIFF cold %s %s %s\n", tasks[i].Name, sha(seq[i]), sha(cold[i]))
+			if *dump != "" {
+				os.WriteFile(*dump+"."+tasks[i].Name+".seq", []byte(seq[i]), 0644)
+				os.WriteFile(*dump+"."+tasks[i].Name+".cold", []byte(cold[i]), 0644)
+			}
+		}
+	}
 	// a second sequential pass: the result of a task must not depend on what ran before it
-	diffs := 0
 	for i, t := range tasks {
 		if again := t.Run(); again != seq[i] {
 			diffs++
@@ -86,6 +150,8 @@ func main() {
 			}
 		}
 	}
+	mutated("after-concurrent-use")
+	fmt.Printf("FINGERPRINT facts=%d\n", len(fpBefore)+len(fpYangBefore))
 	if *dump != "" {
 		for i, t := range tasks {
 			os.WriteFile(*dump+"."+t.Name+".out", []byte(seq[i]), 0644)
